@@ -1,6 +1,6 @@
 # -*- coding: utf-8 -*-
 
-from vsg import violation
+from vsg import parser, violation
 from vsg.rule_group import structure
 
 
@@ -31,7 +31,8 @@ class remove_tokens_bounded_by_tokens_and_remove_trailing_whitespace(structure.R
         self.configuration_documentation_link = None
 
     def _get_tokens_of_interest(self, oFile):
-        return oFile.get_tokens_bounded_by(self.left_token, self.right_token, include_trailing_whitespace=True)
+        lToi = oFile.get_tokens_bounded_by(self.left_token, self.right_token, include_trailing_whitespace=True)
+        return [oToi for oToi in lToi if not oToi.token_type_exists(parser.comment)]
 
     def _analyze(self, lToi):
         for oToi in lToi:
